@@ -32,6 +32,11 @@ func c03(c *Ctx) {
 	mergeRule(c, "C08.R10")
 	// "verified no longer exist": the API re-check answers 'absent' only for NotFound / another node
 	rulePodExist(c, "C09.R6")
+	// shared: an address is bound only on an interface that is in use, not on one marked for release
+	// (C02.R2); every acknowledged ADD rewrites the record, so the sandbox guard of DEL compares with
+	// the live sandbox (C05.R1)
+	c02Binds(c)
+	c05R1(c)
 }
 
 // R1 release gate in releasePodNotFound.
